@@ -150,6 +150,7 @@ FuncContract.unreachable_ok_lines = _unreachable_ok_lines
 FuncContract.unreachable_ok = ()
 FuncContract.frame_check = True
 FuncContract.cuts = ()
+FuncContract.body_only = ()    # names of ensures clauses that are verified on the body but not assumed at call sites
 FuncContract.owns = ()         # locations whose object is part of self's representation (see owned_oids)
 FuncContract.only_segments = None      # verify only these segments (others are outside the subset / outside the property)
 
@@ -395,6 +396,8 @@ def apply_contract(eng, con, fn, args, kwargs, node, fr, caller_label=None, extr
     eng.assuming = True
     try:
         for nm, text in con.ensures:
+            if nm in getattr(con, "body_only", ()):
+                continue        # proved on the body, not handed to callers (no caller clause needs it; keeps their path conditions small)
             eng.assume(eng.truth(eng.eval_spec(text, env2, con.qual.split(".")[0], old=old)))
     finally:
         eng.assuming = False
